@@ -278,3 +278,34 @@ class IgnoreErrors(Contract):
         return {"F.flag": formula(now["ie"]) == want,
                 "V.returns_flag": formula(r) == want,
                 "F.guard_and_one_untouched": now["guard"] is e["guard"] and now["ONE"] is e["ONE"]}
+
+
+@register
+class IsGuard(Contract):
+    """is_guard(): True exactly when no guard is installed or the installed guard's VALUE is 1 -- whatever the
+    error switch says (a live region stays live when the user has switched the run-time checks off)."""
+    name = "pysnark.runtime:is_guard"
+    assigns = ()
+    vprops = MODE_STATE_PROPS
+    fprops = MODE_STATE_PROPS
+    facets = "VRFTNK"
+    cprops = sprops = eprops = tprops = ()
+    guard_relevant = False
+    modules = ("pysnark.runtime", "pysnark.boolean")
+
+    def configs(self, tier):
+        return [dict(outer=o, ie0=i) for o in ("none", "guarded") for i in (False, True)]
+
+    def setup(self, c, cfg):
+        _outer_states(c, cfg["outer"], cfg["ie0"])
+        return c.rt.is_guard, (), {}
+
+    def use_stub(self, c, *a):
+        return False
+
+    def post(self, c, r):
+        e, now = c.entry, c.now
+        g = e["guard"]
+        want = z3.BoolVal(True) if g is None else (c.v(g) == 1)
+        return {"V.live_iff_no_guard_or_guard_is_one": formula(r) == want,
+                "F.state_untouched": _same_state(e, now)}
